@@ -123,6 +123,13 @@ func ProfileFor(focus, arm string) Profile {
 		p.EDNSProb = 0.7
 		p.OptInReply = 0.5
 		p.Listeners = []string{"udp", "udp", "tcp", "gnet", "https", "http"}
+	case "C17":
+		p.Listeners = []string{"tls", "https", "tls", "https", "tcp"}
+		p.NListeners = [2]int{1, 3}
+	case "C18":
+		p.FailActs, p.MixedActs = 0.2, 0.1
+		p.NConns, p.OpsPerConn = [2]int{2, 10}, [2]int{1, 6}
+		p.Yields = true
 	case "C10", "C11":
 		p.RichRules = true
 		p.NUpstreams = [2]int{2, 4}
@@ -167,8 +174,21 @@ var zones = []string{"example.com", "test.org", "a.b.c.net", "corp.internal", "x
 func Generate(seed uint64, focus, arm string) *plan.Plan {
 	r := &rng{s: seed*0x9E3779B97F4A7C15 + 0x1234567}
 	switch focus {
-	case "C05", "C06", "C14", "C16", "C17a", "C17b", "C18x":
+	case "C05", "C06", "C14", "C16":
 		return genXport(r, seed, focus, arm)
+	case "C18":
+		if arm == "xclose" {
+			p := genXport(r, seed, "C18x", arm)
+			p.Focus = "C18"
+			return p
+		}
+	case "C17":
+		switch arm {
+		case "addr":
+			return genAddr(r, seed)
+		case "auth":
+			return genAuth(r, seed)
+		}
 	case "C15":
 		if arm == "unit" {
 			return genLimiter(r, seed)
@@ -702,6 +722,36 @@ func makeGarbage(r *rng, op *plan.ClientOp, proto string) {
 func specialize(r *rng, p *plan.Plan, focus, arm string) {
 	rp := p.Router
 	switch focus {
+	case "C18", "C10":
+		switch arm {
+		case "rclose":
+			var last int64
+			for _, o := range rp.Ops {
+				if o.AtUs > last {
+					last = o.AtUs
+				}
+			}
+			rp.CloseAtUs = r.i64(1000, last+2_000_000)
+		case "startfault":
+			kinds := []string{"addr_in_use", "bad_pem", "bad_proto", "bad_scheme", "missing_file", "bad_ca", "no_cert"}
+			if focus == "C10" {
+				kinds = []string{"dup_tag", "dup_set_tag", "unknown_upstream_tag", "unknown_domain_tag", "missing_tag", "missing_addr"}
+			}
+			rp.StartFault = &plan.StartFault{Kind: kinds[r.intn(len(kinds))], Pos: r.intn(8)}
+			rp.Ops, rp.Conns = nil, nil
+			rp.HorizonUs = 1_000_000
+		}
+	case "C17":
+		// mtls arm: TLS-based listeners that verify client certificates
+		for i := range rp.Servers {
+			switch rp.Servers[i].Proto {
+			case "tls", "https", "quic":
+				rp.Servers[i].MTLS = true
+			}
+		}
+		for i := range rp.Conns {
+			rp.Conns[i].ClientCert = []string{"", "good", "otherca"}[r.intn(3)]
+		}
 	case "C07", "C08", "C19":
 		genCacheOps(r, p, focus, arm)
 	case "C01":
